@@ -371,10 +371,10 @@ CHECK_DEADLOCK FALSE
                   (2, (1, 2), "full", (), (False, True), 1, 1, [(1, True), (3, False)]),
                   (2, (1, 2), "full", (1, 3), (), 2, 2, [(3, False)])]
     else:
-        cplans = [(3, (1, 2), "three-switch", (0, 1, 3), (), 1, 2,
+        cplans = [(3, (1, 2), "three-switch", (0, 1, 3), (), 1, 1,
                    [(1, False), (3, False)]),
-                  (2, (0, 1, 2), "full", (0, 1, 3), (False, True), 1, 2,
-                   [(0, False), (1, False), (3, False), (1, True), (3, True)])]
+                  (2, (1, 2), "full", (0, 1, 3), (False, True), 1, 2,
+                   [(1, False), (3, False), (3, True)])]
     ctx.extra["reconfiguration_plans"] = [
         dict(cycles=c, dts=list(d), letters=m, new_moving_times=list(nm), new_safe_states=list(ns),
              changes=[lo, hi], initial=[dict(mt=a, safe=b) for a, b in ini])
